@@ -201,6 +201,17 @@ func VerifyIPRestrictedX509CertIP(userCert *x509.Certificate, remoteAddr string)
 	return false, nil
 }
 
+// HasIPRestriction tells whether the certificate carries the IP address
+// delegation extension, i.e. is valid only from the netblocks listed in it.
+func HasIPRestriction(userCert *x509.Certificate) bool {
+	for _, certExtension := range userCert.Extensions {
+		if certExtension.Id.Equal(oidIPAddressDelegation) {
+			return true
+		}
+	}
+	return false
+}
+
 func ExtractIPNetsFromIPRestrictedX509(userCert *x509.Certificate) ([]net.IPNet, error) {
 	var extension *pkix.Extension = nil
 	var err error
